@@ -278,7 +278,14 @@ pub fn check_assignment(c: &Corpus, lay: &Layout, fm: &FieldMap, label: &str, p:
         }
         p.distinct(&(compressed, &img.frame));
         let replay = json!({"kind": lay.name, "mode": mode_name(compressed), "perturbed": label, "fields": json_of(fm), "reference_frame": hex(&img.frame)});
-        // typed -> bytes
+        // typed -> bytes (every few packets right after an encode that fails on this thread - a packet too large for the
+        // uncompressed mode, refused or aborted: the image must not depend on what was attempted before)
+        if p.evaluations % 5 == 0 {
+            let big = insim::Packet::Axm(insim::insim::Axm { info: vec![Default::default(); 40], ..Default::default() });
+            if matches!(real_encode(&big, false), Enc::Ok(_)) {
+                p.count("oversize_packet_unexpectedly_encoded", 1);
+            }
+        }
         match real_encode(&typed, compressed) {
             Enc::Ok(b) => {
                 if b != img.frame {
